@@ -84,8 +84,8 @@ def run(ctx: Ctx):
     cli_cpus = [1, 3, 8] if quick else [1, 2, 3, 5, 8, 16]
     lines, tags = [], []
     for k in range(n_inputs):
-        inp = pipecases.make_input(rng, n_refs=2, n_qry=6, kinds=["noisy", "flankdup", "split", "mirror", "flankdup", "flankdup"],
-                                   ref_labels=(260, 300), decimals=False, lattice=100)
+        inp = pipecases.make_input(rng, n_refs=2, n_qry=6, kinds=["samestart", "flankdup", "samestart", "mirror", "flankdup", "samestart"],
+                                   ref_labels=(330, 360), decimals=False, lattice=100)
         wd = os.path.join(ctx.workdir, f"c09-{k}")
         rp, qp = pipecases.write_input(wd, inp, "in")
         qids = [q["id"] for q in inp["qrys"]]
